@@ -5,7 +5,11 @@ The controller keeps, per switch and independently of all other switches, the lo
 last change, the registered handlers per state (`registered_switches[switch][state]`, a list of `(ms, callback)`), the
 pending hold-time deadlines (`_active_timed_switches[switch]`, an insertion-ordered dict deadline ↦ list of handlers) and
 the single scheduled wake-up (`_timed_switch_handler_delay[switch] = (handle, time)`).  This model has exactly these
-fields.  Time is `Nat` ticks (harness: 1 tick = 1/8 s, so `last_change + ms/1000.0` is exact).  Callbacks are opaque ids.
+fields (plus the switch's mute set and whether a monitor is installed).  Time is `Nat` ticks (harness: 1 tick = 1/8 s, so
+`last_change + ms/1000.0` is exact).  Callbacks are ids; what a callback does when it is called is given by `P : Prog` — a list
+of `add`/`remove` actions on the handlers of its own switch — so that handlers which register or remove handlers (their own,
+a peer's, one that is later in the same walk or in the same deadline bucket) during `_call_handlers` and
+`_process_active_timed_switches` are part of the model; the theorems quantify over every `P`.
 
 The loop is not guessed: `Op.to t` (time passes) is impossible beyond a scheduled wake-up, `Op.wake` is the loop running
 `_process_active_timed_switches` — the caller (the harness, from what asyncio did) chooses when among same-instant work.
@@ -25,6 +29,15 @@ structure Reg where
   ms : Nat
 deriving DecidableEq, Repr
 
+/-- what a callback does to the handlers of its own switch when it is invoked (in order) -/
+inductive Act
+  | add (st : Bool) (ms cb : Nat)       -- `add_switch_handler_obj(switch, cb, st, ms)`
+  | remove (st : Bool) (ms cb : Nat)    -- `remove_switch_handler_obj(switch, cb, st, ms)`
+deriving DecidableEq, Repr
+
+/-- the behaviour of every callback id (arbitrary; the theorems quantify over it) -/
+abbrev Prog := Nat → List Act
+
 structure Sw where
   invert : Bool := false
   state : Bool := false
@@ -36,6 +49,10 @@ structure Sw where
   timed : List (Nat × List TEntry) := []
   wake : Option Nat := none
   now : Nat := 0
+  /-- `Switch._mutes` (a set of sources) -/
+  mutes : List Nat := []
+  /-- a monitor is installed (`SwitchController.monitors`) -/
+  mon : Bool := false
 deriving Repr
 
 inductive Op
@@ -45,11 +62,17 @@ inductive Op
   | to (t : Nat)
   | wake
   | query (st : Bool) (ms : Nat)
+  | mute (src : Nat)
+  | unmute (src : Nat)
+  | monitor (on : Bool)
+  | resync (hw : Bool)      -- FAST `update_switches_from_hw_data`: hardware snapshot, differences are processed as changes
+  | poll (hw : Bool)        -- `update_switches_from_hw` (`verify_switches`): the state is overwritten silently
 deriving DecidableEq, Repr
 
 inductive Obs
   | call (cb : Nat) (st : Bool) (ms : Nat) (t : Nat)   -- a handler registered for (st, ms) was invoked at t
   | answer (b : Bool)                                  -- is_active / is_inactive result
+  | monitor (st : Bool)                                -- a monitor was told about a change into `st`
 deriving DecidableEq, Repr
 
 def Sw.reg (s : Sw) (st : Bool) : List Reg := if st then s.reg1 else s.reg0
@@ -76,47 +99,98 @@ def addTimed (s : Sw) (key : Nat) (e : TEntry) : Sw :=
     | some w => if next < w then some next else some w
   { s with timed := timed, wake := wake }
 
-/-- `_call_handlers`: untimed handlers run now, timed ones get a deadline -/
-def callHandlers (st : Bool) (lc : Nat) : List Reg → Sw → Sw × List Obs
-  | [], s => (s, [])
-  | r :: rest, s =>
-    if r.ms = 0 then
-      let x := callHandlers st lc rest s
-      (x.1, .call r.cb st 0 lc :: x.2)
-    else
-      callHandlers st lc rest (addTimed s (lc + r.ms) ⟨r.cb, st, r.ms⟩)
-
 /-- logical state a report stands for -/
 def logicalOf (invert logical v : Bool) : Bool := if logical then v else (v != invert)
 
 def isMatch (st : Bool) (ms cb : Nat) (e : TEntry) : Bool := e.st == st && e.ms == ms && e.cb == cb
 
-/-- due keys are called in dict order and deleted; the rest stays -/
-def processTimed (now : Nat) : List (Nat × List TEntry) → List (Nat × List TEntry) × List Obs
-  | [] => ([], [])
-  | (k, es) :: r =>
-    let x := processTimed now r
-    if k ≤ now then (x.1, es.map (fun e => Obs.call e.cb e.st e.ms now) ++ x.2)
-    else ((k, es) :: x.1, x.2)
+/-- `add_switch_handler_obj`: register, and catch up with a hold time that is still running
+(`last_change + ms/1000 > now and state == switch.state`) -/
+def addH (s : Sw) (st : Bool) (ms cb : Nat) : Sw :=
+  let s1 := s.setReg st (s.reg st ++ [⟨cb, ms⟩])
+  match s.lastChange with
+  | some lc => if ms ≠ 0 ∧ s.now < lc + ms ∧ st = s.state then addTimed s1 (lc + ms) ⟨cb, st, ms⟩ else s1
+  | none => s1
 
-def step (s : Sw) : Op → Option (Sw × List Obs)
-  | .report logical v =>
-    let st := logicalOf s.invert logical v
-    if st = s.state then some (s, [])            -- duplicate: nothing at all
+/-- `remove_switch_handler_obj`: every matching registration and every matching pending entry goes (the deadline keys stay) -/
+def removeH (s : Sw) (st : Bool) (ms cb : Nat) : Sw :=
+  let s1 := s.setReg st ((s.reg st).filter (fun r => !(r.ms == ms && r.cb == cb)))
+  { s1 with timed := s1.timed.map (fun kv => (kv.1, kv.2.filter (fun e => !isMatch st ms cb e))) }
+
+def applyAct (s : Sw) : Act → Sw
+  | .add st ms cb => addH s st ms cb
+  | .remove st ms cb => removeH s st ms cb
+
+/-- a callback runs: its actions in order -/
+def applyActs (s : Sw) : List Act → Sw
+  | [] => s
+  | a :: r => applyActs (applyAct s a) r
+
+/-- the registrations for state `st` that a callback's actions cancel (`entry.cancelled = True`) -/
+def cancOf (st : Bool) : List Act → List Reg
+  | [] => []
+  | .remove st' ms cb :: r => if st' = st then ⟨cb, ms⟩ :: cancOf st r else cancOf st r
+  | .add _ _ _ :: r => cancOf st r
+
+/-- `_call_handlers`: walks a *copy* of the registrations for the new state (`snapshot`); an entry cancelled by an earlier
+callback of this walk (`canc`) is skipped; untimed handlers run now (and may add/remove handlers), timed ones get a deadline.
+Registrations added during the walk are not in the copy, so they are not called in this round. -/
+def callHandlers (P : Prog) (st : Bool) (lc : Nat) : List Reg → List Reg → Sw → Sw × List Obs
+  | _, [], s => (s, [])
+  | canc, r :: rest, s =>
+    if r ∈ canc then callHandlers P st lc canc rest s
+    else if r.ms = 0 then
+      let x := callHandlers P st lc (canc ++ cancOf st (P r.cb)) rest (applyActs s (P r.cb))
+      (x.1, .call r.cb st 0 lc :: x.2)
     else
-      -- state/hw_state/last_change, `_cancel_timed_handlers`, `_call_handlers`
-      let s1 := { s with state := st, hw := (st != s.invert), lastChange := some s.now, timed := [], wake := none }
-      some (callHandlers st s.now (s1.reg st) s1)
-  | .add st ms cb =>
-    let s1 := s.setReg st (s.reg st ++ [⟨cb, ms⟩])
-    -- in-progress catch-up: `last_change + ms/1000 > now and state == switch.state`
-    match s.lastChange with
-    | some lc => if ms ≠ 0 ∧ s.now < lc + ms ∧ st = s.state then some (addTimed s1 (lc + ms) ⟨cb, st, ms⟩, [])
-                 else some (s1, [])
-    | none => some (s1, [])
-  | .remove st ms cb =>
-    let s1 := s.setReg st ((s.reg st).filter (fun r => !(r.ms == ms && r.cb == cb)))
-    some ({ s1 with timed := s1.timed.map (fun kv => (kv.1, kv.2.filter (fun e => !isMatch st ms cb e))) }, [])
+      callHandlers P st lc canc rest (addTimed s (lc + r.ms) ⟨r.cb, st, r.ms⟩)
+
+def lookupT (k : Nat) : List (Nat × List TEntry) → List TEntry
+  | [] => []
+  | (k', es) :: r => if k' = k then es else lookupT k r
+
+def eraseT (k : Nat) (l : List (Nat × List TEntry)) : List (Nat × List TEntry) := l.filter (fun kv => kv.1 != k)
+
+/-- the inner loop of `_process_active_timed_switches` for one expired deadline `k`: walks a copy of the bucket; an entry
+that is no longer in the live bucket (`if entry not in self._active_timed_switches[switch][k]`: removed by an earlier
+callback) is skipped -/
+def procEntries (P : Prog) (k now : Nat) : List TEntry → Sw → Sw × List Obs
+  | [], s => (s, [])
+  | e :: rest, s =>
+    if e ∈ lookupT k s.timed then
+      let x := procEntries P k now rest (applyActs s (P e.cb))
+      (x.1, .call e.cb e.st e.ms now :: x.2)
+    else procEntries P k now rest s
+
+/-- the outer loop over a copy of the deadline keys: an expired deadline's bucket is processed and only then deleted;
+deadlines added by callbacks are not in the copy -/
+def procKeys (P : Prog) (now : Nat) : List Nat → Sw → Sw × List Obs
+  | [], s => (s, [])
+  | k :: ks, s =>
+    if k ≤ now then
+      let a := procEntries P k now (lookupT k s.timed) s
+      let b := procKeys P now ks { a.1 with timed := eraseT k a.1.timed }
+      (b.1, a.2 ++ b.2)
+    else procKeys P now ks s
+
+/-- the state right after a report that changes the switch, before the handlers are walked
+(`state/hw_state/last_change`, `_cancel_timed_handlers`) -/
+def changed (s : Sw) (st : Bool) : Sw :=
+  { s with state := st, hw := (st != s.invert), lastChange := some s.now, timed := [], wake := none }
+
+/-- `process_switch_obj` for a report standing for logical state `st` -/
+def reportL (P : Prog) (s : Sw) (st : Bool) : Sw × List Obs :=
+  if st = s.state then (s, [])            -- duplicate: nothing at all
+  else
+    let s1 := changed s st
+    -- a muted switch changes state but calls no handler; monitors are told in any case
+    let x := if s1.mutes = [] then callHandlers P st s.now [] (s1.reg st) s1 else (s1, [])
+    (x.1, x.2 ++ (if s.mon then [.monitor st] else []))
+
+def step (P : Prog) (s : Sw) : Op → Option (Sw × List Obs)
+  | .report logical v => some (reportL P s (logicalOf s.invert logical v))
+  | .add st ms cb => some (addH s st ms cb, [])
+  | .remove st ms cb => some (removeH s st ms cb, [])
   | .to t =>
     if s.now ≤ t ∧ t ≤ s.wake.getD t then some ({ s with now := t }, []) else none
   | .wake =>
@@ -124,22 +198,30 @@ def step (s : Sw) : Op → Option (Sw × List Obs)
     | none => none
     | some w =>
       if w ≤ s.now then
-        let x := processTimed s.now s.timed
-        some ({ s with timed := x.1, wake := minKey x.1 }, x.2)
+        -- `del self._timed_switch_handler_delay[switch]`, the loops, then one wake-up at the minimum of what is pending now
+        let x := procKeys P s.now (s.timed.map (·.1)) { s with wake := none }
+        some ({ x.1 with wake := minKey x.1.timed }, x.2)
       else none
   | .query st ms =>
     let held := match s.lastChange with
       | none => true
       | some lc => lc + ms ≤ s.now
     some (s, [.answer (s.state == st && (ms == 0 || held))])
+  | .mute src => some ({ s with mutes := if src ∈ s.mutes then s.mutes else src :: s.mutes }, [])
+  | .unmute src => some ({ s with mutes := s.mutes.filter (fun x => x != src) }, [])
+  | .monitor on => some ({ s with mon := on }, [])
+  | .resync hw =>
+    -- `switch.hw_state = hw_state`; a differing logical state is processed like any (logical) switch change
+    some (reportL P { s with hw := hw } (hw != s.invert))
+  | .poll hw => some ({ s with state := (hw != s.invert) }, [])
 
-def run : Sw → List Op → Option (Sw × List Obs)
+def run (P : Prog) : Sw → List Op → Option (Sw × List Obs)
   | s, [] => some (s, [])
   | s, op :: ops =>
-    match step s op with
+    match step P s op with
     | none => none
     | some r1 =>
-      match run r1.1 ops with
+      match run P r1.1 ops with
       | none => none
       | some r2 => some (r2.1, r1.2 ++ r2.2)
 
@@ -202,8 +284,9 @@ def drun : Dev → List DOp → Option (Dev × List DObs)
       | none => none
       | some r2 => some (r2.1, r1.2 ++ r2.2)
 
-/-! ## line protocol: `new`, `sw <invert> <initial state> <initial hw_state>` (adds a switch), `<i> report l|r 0|1`,
-`<i> add st ms cb`, `<i> rm st ms cb`, `<i> wake`, `<i> q st ms`, `to t` (all switches), `<i> pending` -/
+/-! ## line protocol: `new`, `sw <invert> <initial state> <initial hw_state>` (adds a switch), `prog <cb> (a|r st ms cb)*`
+(what callback `cb` does when called), `<i> report l|r 0|1`, `<i> add st ms cb`, `<i> rm st ms cb`, `<i> wake`, `<i> q st ms`,
+`<i> mute src`, `<i> unmute src`, `mon 0|1` (all switches), `<i> resync hw`, `<i> poll hw`, `to t` (all switches), `<i> pending` -/
 
 def b01 (t : String) : Option Bool := if t == "1" then some true else if t == "0" then some false else none
 
@@ -212,6 +295,7 @@ def showB (b : Bool) : String := if b then "1" else "0"
 def showObs : Obs → String
   | .call cb st ms t => s!"c {cb} {showB st} {ms} {t}"
   | .answer b => s!"a {showB b}"
+  | .monitor st => s!"m {showB st}"
 
 def showAll (os : List Obs) : String := if os.isEmpty then "ok" else " ".intercalate (os.map showObs)
 
@@ -223,14 +307,34 @@ def parseOp : List String → Option Op
   | ["rm", st, ms, cb] => do some (.remove (← b01 st) (← ms.toNat?) (← cb.toNat?))
   | ["wake"] => some .wake
   | ["q", st, ms] => do some (.query (← b01 st) (← ms.toNat?))
+  | ["mute", src] => do some (.mute (← src.toNat?))
+  | ["unmute", src] => do some (.unmute (← src.toNat?))
+  | ["resync", hw] => do some (.resync (← b01 hw))
+  | ["poll", hw] => do some (.poll (← b01 hw))
   | _ => none
+
+/-- `a st ms cb` / `r st ms cb` groups -/
+def parseActs : List String → Option (List Act)
+  | [] => some []
+  | k :: st :: ms :: cb :: rest => do
+    let st ← b01 st
+    let ms ← ms.toNat?
+    let cb ← cb.toNat?
+    let tl ← parseActs rest
+    if k == "a" then some (.add st ms cb :: tl) else if k == "r" then some (.remove st ms cb :: tl) else none
+  | _ => none
+
+def progOf (l : List (Nat × List Act)) : Prog := fun cb =>
+  match l.find? (fun kv => kv.1 == cb) with
+  | some kv => kv.2
+  | none => []
 
 def setAt (l : List Sw) (i : Nat) (s : Sw) : List Sw := l.set i s
 
 def toAll (t : Nat) : List Sw → Option (List Sw)
   | [] => some []
   | s :: r => do
-    let x ← step s (.to t)
+    let x ← step (fun _ => []) s (.to t)
     let y ← toAll t r
     some (x.1 :: y)
 
@@ -249,6 +353,7 @@ def showPending (s : Sw) : String :=
 structure Drv where
   sws : List Sw := []
   devs : List Dev := []
+  progs : List (Nat × List Act) := []
 
 def showD (os : List DObs) : String :=
   if os.isEmpty then "ok" else " ".intercalate (os.map (fun o => match o with | .post st => s!"post {showB st}"))
@@ -268,8 +373,16 @@ def driverStep (d : Drv) (line : String) : Drv × String :=
   | ["to", t] =>
     match t.toNat? with
     | some t => match toAll t d.sws, toAllD t d.devs with
-      | some s', some d' => ({ sws := s', devs := d' }, "ok")
+      | some s', some d' => ({ d with sws := s', devs := d' }, "ok")
       | _, _ => (d, "not-enabled")
+    | none => (d, "bad-op")
+  | "prog" :: cb :: rest =>
+    match cb.toNat?, parseActs rest with
+    | some cb, some acts => ({ d with progs := (cb, acts) :: d.progs }, "ok")
+    | _, _ => (d, "bad-op")
+  | ["mon", on] =>
+    match b01 on with
+    | some on => ({ d with sws := d.sws.map (fun s => { s with mon := on }) }, "ok")
     | none => (d, "bad-op")
   | "d" :: i :: rest =>
     match i.toNat? with
@@ -294,7 +407,7 @@ def driverStep (d : Drv) (line : String) : Drv × String :=
       | some s =>
         if rest == ["pending"] then (d, showPending s) else
         match parseOp rest with
-        | some op => match step s op with
+        | some op => match step (progOf d.progs) s op with
           | some r => ({ d with sws := setAt d.sws i r.1 }, showAll r.2)
           | none => (d, "not-enabled")
         | none => (d, "bad-op")
